@@ -2,6 +2,7 @@
 import json
 import os
 import random
+import re
 import subprocess
 import tempfile
 
@@ -27,6 +28,9 @@ print(json.dumps(out))
 
 # what str.split() removes: the ASCII controls FS GS RS US included, and the Unicode spaces
 SPLIT_WS = " \t\n\r\x0b\x0c\x1c\x1d\x1e\x1f\x85\xa0\u2003\u3000"
+
+
+MAVEN_DOC = re.compile(r"^\d+(\.\d+)*(-[a-z]+\d*)*$")     # the documented dash-qualifier grammar, as in C01's finding
 
 
 def decorate(r, t):
@@ -142,6 +146,8 @@ def run(ctx):
                 cname = R.version_class.__name__
                 if any(gens.order_excluded(cname, a, b) for j, a in enumerate(vsn) for b in vsn[j + 1:]):
                     continue  # the order itself is excluded there (C01): alpm pkgrel mixing, conan number-vs-word
+                if cname == "MavenVersion" and len(vsn) >= 3 and not all(MAVEN_DOC.match(v.string.lower()) for v in vsn):
+                    continue  # the listed finding of C01 (maven's order is not transitive outside the documented grammar): reported there
                 cons = [vc.VersionConstraint(comparator=vers.TEXT[r.choice(vers.OPS)], version=v) for v in vsn]
                 a = R(constraints=cons)
                 b = R(constraints=tuple(reversed(cons)))
